@@ -33,6 +33,9 @@ structure CopyWorld where
   next : Nat := 1
   /-- stamp of the value the kept-aside block of a `chain` handle was built for -/
   pristine : Nat := 0
+  /-- handle ↦ how its value was made: constructor line and the mutations applied since (values are a
+  function of this term: nothing that happens to other handles can matter) -/
+  terms : List (String × List String) := []
 
 structure St where
   key : String := ""
@@ -136,25 +139,41 @@ Handles name states (with their contexts). In the model a state is a *value*: `c
 value of `a`; any mutation of a handle rebinds that handle only. So after every operation the observable
 content (bytes, root, context dump) of every **other** live handle is unchanged — that is what the answer
 of each mutating line lists, and what the Go side measures on the real objects. -/
+def CopyWorld.term (w : CopyWorld) (h : String) : List String := ((w.terms.find? (·.1 == h)).map (·.2)).getD []
+def CopyWorld.setTerm (w : CopyWorld) (h : String) (t : List String) : CopyWorld :=
+  { w with terms := (w.terms.filter (·.1 != h)) ++ [(h, t)] }
+
 def copyStep (w : CopyWorld) (toks : List String) : Option (CopyWorld × String) :=
   let others (h : String) := sortStrings ((w.handles.filter (·.1 != h)).map (·.1))
   let has (h : String) := w.handles.any (·.1 == h)
   match toks with
-  | ["live", h, _fork, _seed] =>
-    some ({ w with handles := (w.handles.filter (·.1 != h)) ++ [(h, w.next)], next := w.next + 1 }, "ok")
+  | ["live", h, fork, seed] =>
+    some (({ w with handles := (w.handles.filter (·.1 != h)) ++ [(h, w.next)], next := w.next + 1 } : CopyWorld).setTerm h
+            [" ".intercalate ["live", fork, seed]], "ok")
   | ["chain", h, _cfg, _n, _policy, _seed, _warm] =>
     some ({ handles := (w.handles.filter (·.1 != h)) ++ [(h, w.next)], next := w.next + 1, pristine := w.next }, "ok")
   | ["copy", a, b] =>
     match w.handles.find? (·.1 == a) with
     | some (_, s) =>
       if a == b then some (w, "bad-op") else
-      some ({ w with handles := (w.handles.filter (·.1 != b)) ++ [(b, s)] }, "ok same-as=" ++ a)
+      some (({ w with handles := (w.handles.filter (·.1 != b)) ++ [(b, s)] } : CopyWorld).setTerm b (w.term a), "ok same-as=" ++ a)
     | none => some (w, "bad-op")
+  | ["fresh", a, b] =>
+    -- a copy whose context is computed from scratch: the same value as `a`
+    match w.handles.find? (·.1 == a) with
+    | some (_, s) =>
+      if a == b then some (w, "bad-op") else
+      some (({ w with handles := (w.handles.filter (·.1 != b)) ++ [(b, s)] } : CopyWorld).setTerm b (w.term a), "ok")
+    | none => some (w, "bad-op")
+  | ["same", a, b] =>
+    if has a && has b then
+      some (w, if w.term a == w.term b then "ok equal" else "ok incomparable")
+    else some (w, "bad-op")
   | "mut" :: h :: rest =>
     let arity : Option Nat := match rest.head? with
       | some "block" => some 1
       | some k => if ["mutant", "mutantvalid", "slots", "slot", "checkpoint", "header", "addval", "eth1vote", "histroot"].contains k then some 2
-                  else if ["balance", "exit", "root", "mix"].contains k then some 3 else none
+                  else if ["balance", "exit", "root", "mix", "dep"].contains k then some 3 else none
       | none => none
     if arity != some rest.length then some (w, "bad-op") else
     if has h then
@@ -164,13 +183,10 @@ def copyStep (w : CopyWorld) (toks : List String) : Option (CopyWorld × String)
         | ["block"] | ["mutantvalid", _] =>
           if (w.handles.find? (·.1 == h)).map (·.2) == some w.pristine then " applied" else " refused"
         | _ => ""
-      some ({ w with handles := w.handles.map (fun x => if x.1 == h then (h, w.next) else x), next := w.next + 1 },
+      some (({ w with handles := w.handles.map (fun x => if x.1 == h then (h, w.next) else x), next := w.next + 1 } : CopyWorld).setTerm h
+              (w.term h ++ [" ".intercalate rest]),
             "ok unchanged=" ++ ",".intercalate (others h) ++ verdict)
     else some (w, "bad-op")
-  | ["same", a, b] =>
-    match w.handles.find? (·.1 == a), w.handles.find? (·.1 == b) with
-    | some (_, s), some (_, t) => some (w, if s == t then "ok equal" else "ok any")
-    | _, _ => some (w, "bad-op")
   | _ => none
 
 def c15Step (s : St) (line : String) : St × String :=
@@ -225,6 +241,15 @@ def c15Step (s : St) (line : String) : St × String :=
         let f (t : Option String) := writeAnswer s.fields t (ByteArray.mk #[1])
         let (ma, fs') := f tgtM
         ({ s with fields := fs' }, ma ++ " | " ++ (f tgtS).1)
+      | "Set", [h] =>
+        -- CheckpointView.Set: the whole value is replaced (fixed-size fields: epoch 8 bytes, root 32 bytes)
+        match parseHex h with
+        | some b =>
+          if s.key != "common.CheckpointView" || b.size != 40 then bad else
+          let fs' : Fields := [("epoch", b.extract 0 8), ("root", b.extract 8 40)]
+          let a := diffStr s.fields fs'
+          ({ s with fields := fs' }, a ++ " | " ++ a)
+        | none => bad
       | "SeedRandao", [h] =>
         match parseHex h with
         | some seed =>
